@@ -159,7 +159,11 @@ def generate(run_seed, index, tier):
         ngates = r.randint(2, 10 if not thorough else 16)
         nmeas = 0
         ops.append({'op': 'c_new'})
+        if r.random() < 0.2:
+            ops.append({'op': 'c_probe'})
         for _ in range(ngates):
+            if r.random() < 0.05:
+                ops.append({'op': 'c_probe'})
             x = r.random()
             if x < 0.5:
                 ops.append(_gate_op(r, n, 'c_'))
@@ -187,6 +191,7 @@ def generate(run_seed, index, tier):
                     body.append({'op': 'c_ctrl', 'm': -1 - r.randrange(bm), 'bit': r.randrange(6), 'g': r.choice(['X', 'Z', 'H']), 'q': [r.randrange(n)]})
             ops.append({'op': 'c_extend', 'body': body, 'times': r.randint(1, 3)})
         reg_w = r.choice([0, 0, 0, 5, 6, 6])
+        use_buffer = r.random() < 0.35
         nruns = r.randint(1, 4)
         for k in range(nruns):
             if use_wipe and r.random() < 0.2:
@@ -200,10 +205,12 @@ def generate(run_seed, index, tier):
             o = {'op': 'c_run', 'prep': prep(), 'picks': [r.randrange(64) for _ in range(12)], 'via': 'torch' if r.random() < 0.2 else 'plain', 'reg': reg_w}
             if r.random() < 0.15:
                 o['strided'] = True
+            elif use_buffer:
+                o['buffer'] = True
             ops.append(maybe_fault(o))
         if r.random() < 0.08:  # many more runs of the same circuit
             for _ in range(r.randint(10, 25)):
-                ops.append({'op': 'c_run', 'prep': prep(), 'picks': [r.randrange(64) for _ in range(12)], 'via': 'plain', 'reg': reg_w})
+                ops.append({'op': 'c_run', 'prep': prep(), 'picks': [r.randrange(64) for _ in range(12)], 'via': 'plain', 'reg': reg_w, 'buffer': use_buffer})
         if r.random() < 0.15:  # a second circuit object in the same process; the first one's records must stay what they were
             ops.append({'op': 'c_new'})
             for _ in range(r.randint(1, 4)):
@@ -318,6 +325,21 @@ class ClassicalControl:
         return q0
 
 
+class Probe:
+    """user-level custom gate that only looks at the state (records its norm) and returns its input object unchanged"""
+
+    def __init__(self, name='probe'):
+        self.name = name
+        self.requires_grad = False
+        self.kind = 'custom'
+        self.index = ()
+        self.seen = []
+
+    def forward(self, q0):
+        self.seen.append(float(np.linalg.norm(q0)))
+        return q0
+
+
 class Sim:
     def __init__(self, plan, keep_events):
         import numqi
@@ -337,6 +359,7 @@ class Sim:
         self.circ = None
         self.desc = []
         self.mgates = []
+        self.buffers = {}
         self.stash = []  # (gate, bitstr, probability) of measure gates of earlier circuits of this run
         self.handed = []  # (array object, copy, what) results handed out earlier: they belong to the caller and must not change later
 
@@ -483,6 +506,11 @@ class Sim:
         for q, b in zip(S, bs):
             self.known[q] = b
         self.last = (S, bs, post.copy())
+        if isinstance(bitstr, list) and bitstr:
+            bitstr.reverse()  # the caller owns the returned list and may edit it in place; later results must not see that
+            bitstr[0] = 7
+            self.bump('fault.caller_overwrites_result.configured')
+            self.bump('fault.caller_overwrites_result.fired')
         self.hand_out(prob, 'measure_quantum_vector probabilities')
         self.hand_out(post, 'measure_quantum_vector post-measurement state')
         self.psi = np.asarray(post)
@@ -573,7 +601,9 @@ class Sim:
                         self.stash.append((x[2], [int(b) for b in x[2].bitstr], None if x[2].probability is None else np.array(x[2].probability, dtype=np.float64)))
             self.circ = nq.sim.Circuit(default_requires_grad=False)
             self.circ.register_custom_gate('classical_control_gate', ClassicalControl)
+            self.circ.register_custom_gate('probe_gate', Probe)
             self.desc, self.mgates = [], []
+            self.buffers = {}
             self.shape.append('n')
             return
         if self.circ is None:
@@ -637,6 +667,14 @@ class Sim:
                 raise Violation('unexpected_exception', 'Circuit.register_custom_gate', f'{type(e).__name__}: {e}')
             self.desc.append(('cc', gm, op['bit'], U, cg))
             self.shape.append('c')
+        elif k == 'c_probe':
+            try:
+                c.probe_gate() if hasattr(c, 'probe_gate') else None
+            except Exception as e:
+                raise Violation('unexpected_exception', 'Circuit.register_custom_gate', f'{type(e).__name__}: {e}')
+            if hasattr(c, 'probe_gate'):
+                self.desc.append(('probe',))
+                self.shape.append('b')
         elif k == 'c_shift':
             d = op['delta']
             w = self.width()
@@ -662,6 +700,8 @@ class Sim:
                     nd.append(('gate', (kind, U, [q + d for q in ctrl], [q + d for q in tgt])))
                 elif x[0] == 'measure':
                     nd.append(('measure', [q + d for q in x[1]], x[2], x[3]))
+                elif x[0] == 'probe':
+                    nd.append(x)
                 else:
                     if id(x[4]) not in seen_cc:
                         seen_cc.add(id(x[4]))
@@ -676,10 +716,11 @@ class Sim:
             main_c, main_desc, main_m = self.circ, self.desc, self.mgates
             sub = nq.sim.Circuit(default_requires_grad=False)
             sub.register_custom_gate('classical_control_gate', ClassicalControl)
+            sub.register_custom_gate('probe_gate', Probe)
             self.circ, self.desc = sub, []
             try:
                 for o in op['body']:
-                    if o['op'] in ('c_gate', 'c_measure', 'c_ctrl'):
+                    if o['op'] in ('c_gate', 'c_measure', 'c_ctrl', 'c_probe'):
                         self.step_circuit(world, o)
             finally:
                 sub_desc = self.desc
@@ -720,6 +761,13 @@ class Sim:
         # circuits always get a complex128 input: numqi's apply_control_n_gate writes into a copy of the input and silently drops the
         # imaginary part for float64 states (a C03-type input-dtype issue, outside C11; see DESIGN §5.4)
         psi0 = born.make_state(op['prep']['kind'], w, op['prep']['seed']).astype(np.complex128)
+        if op.get('buffer') and not op.get('strided'):
+            # the caller keeps one preallocated array per register width and refills it before every run
+            buf = self.buffers.get(psi0.shape[0])
+            if buf is None:
+                buf = self.buffers[psi0.shape[0]] = np.zeros(psi0.shape[0], dtype=np.complex128)
+            buf[:] = psi0
+            psi0 = buf
         if op.get('strided'):
             big = np.zeros(2 * psi0.shape[0], dtype=np.complex128)
             big[1::2] = 0.123  # garbage between the amplitudes: a non-contiguous view handed in by the caller
@@ -818,6 +866,8 @@ class Sim:
                 self.cover['pairs'].add(f'{n}:{"".join(map(str, S))}')
                 self.cover['triples'].add(f'{n}:{"".join(map(str, S))}:{a}')
                 self.cover['compl_runs'].add(str(min(complement_runs(n, S), 3)))
+            elif x[0] == 'probe':
+                pass
             else:
                 _, gm, bit, U, cg = x
                 bs = outcomes.get(id(gm))
